@@ -619,3 +619,16 @@ fn mime_from_suffix(suffix: &str) -> &'static str {
         _ => "mime::BYTE_STREAM",
     }
 }
+
+#[cfg(feature = "verif-hooks")]
+pub(crate) fn verif_checksum_slug(data: &[u8]) -> String {
+    checksum_slug(data)
+}
+#[cfg(feature = "verif-hooks")]
+pub(crate) fn verif_name_and_ext(path: &Path) -> Option<(String, String)> {
+    name_and_ext(path).map(|(n, e)| (n.to_string(), e.to_string()))
+}
+#[cfg(feature = "verif-hooks")]
+pub(crate) fn verif_mime_arg(suffix: &str) -> String {
+    mime_arg(suffix)
+}
